@@ -250,7 +250,13 @@ def run(pid, tier, args):
             vlib.vh(vhbin, ["lex-prep", graw, os.path.join(gd, "cases.json")])
             gbyid = {c["id"]: c for c in gcases}
             gen = genlexer.build_generator(wd)
-            vlib.vh(vhbin, ["gen-lexers", graw, gen, os.path.join(wd, "harness-src", "genlex")])
+            # (generated code is also built for definitions with nullable rules - outside the supported class, judged only
+            # by the clauses that need no specification, see lex-long below)
+            ncases = gen_lex.nullable_gen()
+            allgraw = os.path.join(gd, "allraw.json")
+            gen_lex.write(allgraw, alpha, gcases + ncases)
+            gbyid.update({c["id"]: c for c in ncases})
+            vlib.vh(vhbin, ["gen-lexers", allgraw, gen, os.path.join(wd, "harness-src", "genlex")])
             vhgen = genlexer.build_with_generated(wd, v, pid, gbyid)
             gres = vlib.run_tlc(wd, "MC_StatefulLexer", modules=["StatefulLexer", "Regex", "Position"], extra_files=[os.path.join(gd, "cases.json")],
                                 consts={"MaxIn": 3 if tier == "quick" else 4, "ExtraCalls": extra}, timeout=3000)
@@ -272,7 +278,7 @@ def run(pid, tier, args):
             v.notes["generated_lexers"] = "%d definitions compiled and run with %d extra calls" % (len(gcases), extra)
             # long inputs ending in runs of invalid bytes (error texts quote the remaining input): the clauses of C07 that need no
             # specification - no panic, no hang, a located error or EOF, also on further calls - for runtime and generated lexers
-            for mk, binp, rp, ids in (("runtime", vhbin, rawpath, byid), ("generated", vhgen, graw, gbyid)):
+            for mk, binp, rp, ids in (("runtime", vhbin, rawpath, byid), ("generated", vhgen, allgraw, gbyid)):
                 for line in vlib.vh(binp, ["lex-long", rp, str(vlib.seed()), mk], timeout=1200).splitlines():
                     q = line.split("\t")
                     if q[0] == "BAD" and q[1] in ids:
